@@ -1,6 +1,7 @@
 package c05
 
 import (
+	"github.com/tendermint/tendermint/types"
 	"strings"
 	"testing"
 	"time"
@@ -73,6 +74,28 @@ func TestRegressInitialHeightFirstBlockCrash(t *testing.T) {
 		}
 		if v, bad := res.Violations["C05"]; bad {
 			t.Fatalf("C05 violated (crash at op %d %s): %s", k, labels[k], v)
+		}
+	}
+}
+
+// TestRegressReplayCommitsBehindTornTail: library-free replay of the finding C05-replay-appends-behind-torn-tail (found
+// by the thorough tier, saved input TestCrashPoints-20260926122853). A crash tears the record that follows the node's
+// own precommit; on restart the catch-up replay re-applies that precommit, commits the block and writes its #ENDHEIGHT
+// - behind the torn record it has not read yet, whose length field then swallows everything written afterwards. Two
+// restarts later the repair truncates the log at the torn record and the node's synced votes of the next height are
+// gone: the signer refuses to sign them again and the node never commits. (The unrepaired tree fails about 5 runs in
+// 6: record sizes vary by a byte or two with the wall clock, which moves the cut.)
+func TestRegressReplayCommitsBehindTornTail(t *testing.T) {
+	for run := 0; run < 5; run++ {
+		h := pnode.History{Heights: 3, Txs: map[int64][]types.Tx{5: {types.Tx("tx-5-0-ckeb"), types.Tx("tx-5-1-adqadpga")}, 6: {types.Tx("tx-6-0-bhrbc")}},
+			Salted: true, AddValAt: 2, RetainAt: 1, RetainDelta: 1, DiscardABCI: true, Initial: 1<<53 + 3,
+			GenTime: time.Now().Add(-time.Hour).UTC(), PowerSelf: 10}
+		res, err := pnode.RunCrash(h, 156, 0.18582308292388916, []int{21, 39})
+		if err != nil {
+			t.Fatalf("VERIF-INFRA: %v", err)
+		}
+		if v, bad := res.Violations["C05"]; bad {
+			t.Fatalf("C05 violated (run %d): %s\ncrashes=%v", run, v, res.Crashes)
 		}
 	}
 }
